@@ -86,12 +86,12 @@ var fnSpecs = []groupSpec{
 		Lean: "readRawMsgFromTCP", Params: "(c : Go.Stream)", Ret: "Except Go.ReadErr (Bytes × Go.Stream)",
 		Vars: map[string]ty{"h": tBytes},
 		Stmt: map[string]string{
-			"h := pool.GetBuf(2)":           "let h : Bytes := Go.make 2",
-			"_, err := io.ReadFull(c, *h)":  "match Go.readFull c h.length with\n| .error e => .error e\n| .ok (h, c) =>",
+			"h := pool.GetBuf(2)":            "let h : Bytes := Go.make 2",
+			"_, err := io.ReadFull(c, *h)":   "match Go.readFull c h.length with\n| .error e => .error e\n| .ok (h, c) =>",
 			"return nil, ErrPayloadTooSmall": "return .error .tooSmall",
-			"b := pool.GetBuf(int(length))": "let b : Bytes := Go.make (length.toNat : Int)",
-			"_, err = io.ReadFull(c, *b)":   "match Go.readFull c b.length with\n| .error e => .error e\n| .ok (b, c) =>",
-			"return b, nil":                 "return .ok (b, c)",
+			"b := pool.GetBuf(int(length))":  "let b : Bytes := Go.make (length.toNat : Int)",
+			"_, err = io.ReadFull(c, *b)":    "match Go.readFull c b.length with\n| .error e => .error e\n| .ok (b, c) =>",
+			"return b, nil":                  "return .ok (b, c)",
 		},
 		StmtVars: map[string]map[string]ty{
 			"h := pool.GetBuf(2)":           {"h": tBytes},
